@@ -2,13 +2,14 @@
 // proportional to the input size rather than to lengths claimed inside the input.
 //
 // Bounded exhaustive enumeration (no sampling): for every public decoder
-//   (i)  ALL byte strings of length <=2 (<=3 for the cheap decoders in the thorough tier),
-//   (ii) for every valid encoding ("seed") of that decoder: truncation at every offset, every
-//        single-byte substitution (all 255 values if the seed is <=256 B, else the 16
-//        type-confusing values), every length-field inflation to {len+1, 2^16, 2^32-1, 2^63},
-//        every tag renumbering / tag wrapping, every node replaced by nests of depth
-//        {16,64,255,256,257,1024,10000} in 9 shapes, and the same tree mutations inside
-//        embedded CBOR (byte strings holding CBOR) with the outer lengths corrected.
+//
+//	(i)  ALL byte strings of length <=2 (<=3 for the cheap decoders in the thorough tier),
+//	(ii) for every valid encoding ("seed") of that decoder: truncation at every offset, every
+//	     single-byte substitution (all 255 values if the seed is <=256 B, else the 16
+//	     type-confusing values), every length-field inflation to {len+1, 2^16, 2^32-1, 2^63},
+//	     every tag renumbering / tag wrapping, every node replaced by nests of depth
+//	     {16,64,255,256,257,1024,10000} in 9 shapes, and the same tree mutations inside
+//	     embedded CBOR (byte strings holding CBOR) with the outer lengths corrected.
 //
 // Oracle (independent of the repository: it is the property statement itself): the call
 // returns (value or error) without panicking; it does not take >=20 s of CPU (believed only
@@ -54,6 +55,7 @@ const (
 	// quick tier: seeds above this size get substitution at item-head bytes only and are
 	// skipped by the "heavy" variant decoders; the thorough tier treats every seed in full
 	quickFullSeed = 1100
+	quickMaxSeeds = 4
 )
 
 // allocBoundOf: base + c * len * D, D = nesting depth of the input (1..256) as seen by the
@@ -86,10 +88,13 @@ func decoderFamilies(d *decoder, thorough bool) []family {
 	if thorough {
 		maxPos = 400
 	}
-	for _, s := range d.seeds {
+	for si, s := range d.seeds {
+		if !thorough && si >= quickMaxSeeds {
+			break // quick tier: the first few seeds of a decoder; the thorough tier takes all
+		}
 		big := len(s.b) > quickFullSeed
-		if !thorough && big && d.heavy {
-			continue // variant decoders (skip-hash / with-offsets) take the large blocks in the thorough tier only
+		if big && (d.smallOnly || (!thorough && d.heavy)) {
+			continue // variant decoders: with-offsets takes the large blocks in the thorough tier only, skip-body-hash never (same decode path as the default configuration)
 		}
 		sf := seedFamilies(s.name, s.b, !d.notCbor, maxPos, 0, !thorough && big)
 		fams = append(fams, sf...)
@@ -146,23 +151,23 @@ type calibRec struct {
 }
 
 type unitRes struct {
-	Unit     int        `json:"unit"`
-	N        int64      `json:"n"`
-	Skipped  int64      `json:"skipped"`
-	Distinct int64      `json:"distinct"`
-	Ok       int64      `json:"ok"`
-	Err      int64      `json:"err"`
-	Panic    int64      `json:"panic"`
-	AllocV   int64      `json:"allocv"`
-	Viol     []violRec  `json:"viol,omitempty"`
-	Calib    []calibRec `json:"calib,omitempty"`
-	MaxAlloc uint64     `json:"maxalloc"` // largest single-call (or batch) TotalAlloc delta seen
-	MaxLen   int        `json:"maxlen"`
-	MaxFracIn string    `json:"maxfracin,omitempty"`
-	MaxFrac  float64    `json:"maxfrac"` // largest alloc delta as a fraction of the bound (batch delta vs bound of the shortest input = upper bound)
-	Sample   *violRec   `json:"sample,omitempty"`
-	ErrText  string     `json:"errtext,omitempty"`
-	CPUms    int64      `json:"cpums"`
+	Unit      int        `json:"unit"`
+	N         int64      `json:"n"`
+	Skipped   int64      `json:"skipped"`
+	Distinct  int64      `json:"distinct"`
+	Ok        int64      `json:"ok"`
+	Err       int64      `json:"err"`
+	Panic     int64      `json:"panic"`
+	AllocV    int64      `json:"allocv"`
+	Viol      []violRec  `json:"viol,omitempty"`
+	Calib     []calibRec `json:"calib,omitempty"`
+	MaxAlloc  uint64     `json:"maxalloc"` // largest single-call (or batch) TotalAlloc delta seen
+	MaxLen    int        `json:"maxlen"`
+	MaxFracIn string     `json:"maxfracin,omitempty"`
+	MaxFrac   float64    `json:"maxfrac"` // largest alloc delta as a fraction of the bound (batch delta vs bound of the shortest input = upper bound)
+	Sample    *violRec   `json:"sample,omitempty"`
+	ErrText   string     `json:"errtext,omitempty"`
+	CPUms     int64      `json:"cpums"`
 }
 
 // ---- worker ----
@@ -625,16 +630,16 @@ func (w *worker) run(u unitCmd) (res unitRes, crashed bool) {
 
 type decStats struct {
 	n, ok, err, panics, allocv, skipped, distinct int64
-	fatal, hang                                 int64
-	maxAlloc                                    uint64
-	maxFrac                                     float64
-	maxFracIn                                   string
-	cpums                                       int64
-	famCPU                                      map[string]int64
-	units, unitsDone                            int
-	crashes                                     int
-	abandoned                                   bool
-	families                                    map[string]int64
+	fatal, hang                                   int64
+	maxAlloc                                      uint64
+	maxFrac                                       float64
+	maxFracIn                                     string
+	cpums                                         int64
+	famCPU                                        map[string]int64
+	units, unitsDone                              int
+	crashes                                       int
+	abandoned                                     bool
+	families                                      map[string]int64
 }
 
 type supervisor struct {
